@@ -130,6 +130,7 @@ void vh_fill_kind(mzd_t *M, int kind); /* 0 dense 1 sparse 2 zero 3 identity 4 s
 void vh_fill_rankprofile(mzd_t *M, const int *pivcols, int r, int disguise);
 void vh_fill_lowrank(mzd_t *M, int r);
 void vh_fill_invertible(mzd_t *M);
+void vh_fill_sparse_invertible(mzd_t *M);
 void vh_fill_raw_junk(mzd_t *M); /* every bit inside ncols random (padding stays 0) */
 void vh_perm_random(mzp_t *P, int n);
 
